@@ -3,7 +3,7 @@
    non-vacuity examples of Properties/C10.v. *)
 From Coq Require Import List NArith ZArith QArith Qcanon Bool Lia Sorted.
 From ACB Require Import Base.Outcome Base.QcExtra Base.Arith Model.Tx Model.Ledger Model.Sfl
-     Model.DeltaList Model.App Model.Summary Proofs.SummaryProps Proofs.C15Full Proofs.SortLayout
+     Model.DeltaList Model.App Model.Summary Model.SummaryObs Proofs.SummaryProps Proofs.C15Full Proofs.SortLayout
      Proofs.C10Scan Proofs.C10Sim Proofs.C10Roundtrip Proofs.C10Ranges Proofs.C10Cut Proofs.C10Window.
 Import ListNotations.
 Local Open Scope Z_scope.
@@ -15,29 +15,6 @@ Local Open Scope Z_scope.
    history reports one more expansion row (0 shares before and after) than the
    re-run.  [roundtrip_ok] compares the later rows one by one and fails; the
    oracle of the check ignores such rows (lib/props/c10.py later_rows). *)
-Definition idle_split (d : delta) : bool :=
-  is_split (t_act (d_tx d)) && Qceqb (s_sh (d_pre d)) 0 && Qceqb (s_sh (d_post d)) 0.
-Definition K4_of (latest : Z) (ds : list delta) : bool :=
-  existsb (fun d => (latest <? d_sd d) && idle_split d) ds.
-Definition K_idle_split_expansion (A : arith) (latest : Z) (rows : list tx) : bool :=
-  K4_of latest (fst (sec_run A rows)).
-
-(* the round trip with the idle expansion rows left out of the comparison *)
-Definition later_obs (latest : Z) (ds : list delta) : list delta :=
-  filter (fun d => negb (idle_split d)) (later_deltas latest ds).
-Definition roundtrip_obs_of (A : arith) (latest : Z) (annual : bool) (rows : list tx) (ds : list delta) : bool :=
-  match make_summary A latest ds annual with
-  | Ok sums =>
-      let '(ds2, o2) := sec_run A (number_from 0 (through_csv sums ++ rows_after latest rows)) in
-      match o2 with
-      | None => same_reports (later_obs latest ds) (later_obs latest ds2)
-      | Some _ => false
-      end
-  | _ => false
-  end.
-Definition roundtrip_obs_ok (A : arith) (latest : Z) (annual : bool) (rows : list tx) : bool :=
-  roundtrip_obs_of A latest annual rows (fst (sec_run A rows)).
-
 Definition grow (ri : N) (sd : Z) (a : action) : tx :=
   {| t_sec := 0; t_td := sd; t_sd := sd; t_act := a; t_af := default_aff; t_glob := true; t_ri := ri |}.
 (* default buys 10; the spouse buys 5 and sells them at a gain; -- date --;
